@@ -108,7 +108,9 @@ def allowed (σ : SpecSt) (f : Fr) (c : Ctx) (r : Reaction) : Bool :=
     | .idleClosed =>                                              -- §5.1.1 (and §5.1.2 when over the limit)
       r == .connErr .protocol || r == .connErr .streamClosed || overLimit c r
     | .open _ =>
-      if !es then errOf .protocol r                               -- §8.1: a second block must end the stream
+      -- §8.1: a second block must end the stream (§8.1.2.6: a malformed request); its block may be refused
+      -- for what it is just as well (§4.3: a block that cannot be decoded is always a connection error)
+      if !es then errOf .protocol r || (blk != .wf && onBlock blk isOk r)
       else if selfDep then errOf .protocol r
       else onBlock blk (fun r => if eh then onComplete c r else isOk r) r
     | .hcr _ => errOf .streamClosed r                             -- §5.1 half-closed (remote)
